@@ -659,16 +659,31 @@ def run_proc(p):
     return p
 
 
-def replay_once(exe, tape, timeout=120, env_extra=None):
+def replay_once(exe, tape, timeout=120, env_extra=None, cpu_limit=None):
+    """Replay one tape in a fresh process.  With cpu_limit the criterion for a hang is CPU time
+    (RLIMIT_CPU, independent of the load of the machine); the wall-clock limit is then only a
+    safety net and running into it is reported as 'stalled' (inconclusive), not as a timeout."""
     env = dict(os.environ)
     env.update(SAN_ENV)
     env["VERIF_PRINT_TAGS"] = "1"
     if env_extra:
         env.update(env_extra)
+    pre = None
+    if cpu_limit:
+        import resource
+
+        def pre():
+            resource.setrlimit(resource.RLIMIT_CPU, (int(cpu_limit), int(cpu_limit) + 5))
+        timeout = max(timeout, int(cpu_limit) * 10)
     try:
-        r = subprocess.run([exe, tape], stdout=subprocess.PIPE, stderr=subprocess.STDOUT, env=env, timeout=timeout)
+        r = subprocess.run([exe, tape], stdout=subprocess.PIPE, stderr=subprocess.STDOUT, env=env, timeout=timeout,
+                           preexec_fn=pre)
     except subprocess.TimeoutExpired:
+        if cpu_limit:
+            return "stalled", "no verdict within %ds of wall-clock time (machine overloaded?)" % timeout
         return "timeout", "timeout after %ds" % timeout
+    if cpu_limit and r.returncode in (-24, -9):  # SIGXCPU (soft limit), SIGKILL (hard limit)
+        return "timeout", "more than %ds of CPU time" % cpu_limit
     out = r.stdout.decode("utf-8", "replace")
     if r.returncode == 0:
         return "ok", ""
@@ -1071,14 +1086,14 @@ def run_check(pid, tier, seed, opts):
             variant = m.group(1)
         exe = bins[(pid, variant)]["replay"]
         with cf.ThreadPoolExecutor(max_workers=3) as ex3:
-            results = list(ex3.map(lambda _: replay_once(exe, tape, env_extra=base_env, timeout=hang_s), range(3)))
+            results = list(ex3.map(lambda _: replay_once(exe, tape, env_extra=base_env, cpu_limit=hang_s), range(3)))
         kinds = set(k for k, _ in results)
-        if kinds == {"ok"} or "ok" in kinds:
+        if kinds == {"ok"} or "ok" in kinds or "stalled" in kinds:
             inconclusive.append("%s: failure '%s' did not reproduce 3/3 (%s)" % (p.name, hint[:120], [k for k, _ in results]))
             continue
         if kinds == {"timeout"}:
             # a single case that normally takes milliseconds ran alone for hang_s seconds, three times
-            sig = "hang: case does not terminate within %ds when run alone, 3/3" % hang_s
+            sig = "hang: case does not terminate within %ds of CPU time when run alone, 3/3" % hang_s
         else:
             kind, sig = [r for r in results if r[0] != "timeout"][0]
             if kind == "crash":
